@@ -22,7 +22,7 @@ def sh(cmd, **kw):
 def setup(i):
     w = os.path.join(ROOT, f'w{i}')
     os.makedirs(w, exist_ok=True)
-    sh(f'rsync -a --exclude .git --exclude replays --exclude evidence --exclude build/e2e {V}/ {w}/verif/')
+    sh(f'rsync -aH --exclude .git --exclude replays --exclude evidence --exclude build/e2e {V}/ {w}/verif/')
     sh(f'git -C /repo worktree remove --force {w}/repo')
     rc, out = sh(f'git -C /repo worktree add -q --detach {w}/repo HEAD')
     assert rc == 0, out
